@@ -782,7 +782,10 @@ def run(ctx):
     if ctx.replay_case is not None:
         cases = [ctx.replay_case['case']]
     else:
-        _models(ctx)
+        # (D) the design models do not depend on the tree: they run beside the replay and are joined at the end
+        import concurrent.futures as cf
+        pool = cf.ThreadPoolExecutor(max_workers=1)
+        models = pool.submit(_models, ctx)
         raw, _ = core.tlc_cases('MC_Helpers_cases', 'MC_Helpers_cases' if ctx.quick else 'MC_Helpers_cases_big')
         cases = _tlc_cases(raw)
         ctx.coverage['tlc_cases'] = {k: len(v) for k, v in raw.items()}
@@ -826,6 +829,8 @@ def run(ctx):
                       tags=_tags(cases[tid], evs, all((tid, i) in explained for i in idxs)),
                       detail={'event_indices': idxs[:10], 'first_event': evs[0]})
     if ctx.replay_case is None:
+        models.result()                      # raises MachineryError if a design model misbehaved
+        pool.shutdown()
         missing = [k for k in NEEDED if not totals.get(k)]
         if missing:
             raise core.MachineryError('vacuity guard: never exercised: %s' % ', '.join(missing))
